@@ -32,6 +32,8 @@ def obligations(tier):
                   bounds="only MissingRequiredField escapes (Player2 values from the recogniser's SPEC)"))
     obs.append(Ob("C18.render.note", "CH", "harness.h_c18", "render_note_event", 1500, funcs=("chartparse.instrument.NoteEvent.__str__", "chartparse.event.Event.__str__", "chartparse.util.DictReprMixin.__repr__"),
                   bounds="32 notes x 4 sustain shapes x 3 states x star power, symbolic times"))
+    obs.append(Ob("C18.render.times", "CH", "harness.h_extra", "render_event_times", 300, funcs=("chartparse.event.Event.__str__",),
+                  bounds="events at 11 representative instants up to the platform timedelta maximum"))
     obs.append(Ob("C18.render.chart", "CH", "harness.h_c18", "render_chart", 900, funcs=("chartparse.chart.Chart.__str__", "chartparse.util.DictReprTruncatedSequencesMixin.__repr__",
                                                                                             "chartparse.instrument.InstrumentTrack.__str__"),
                   bounds="charts with 0/1/2 tracks and 0/1/2+ events per list (truncated-sequence repr branches), every event class"))
